@@ -58,7 +58,7 @@ Theorem candidates_branch : forall t c name k e ds k' d,
   = map (fun n => (Some (d_id d, n), PConst (Z.of_nat n))) (d_sizes d).
 Proof.
   intros t c name k e ds k' d H Hin. pose proof (encode_inv _ _ _ _ _ _ _ H) as Hi.
-  unfold calldataload. cbn [assoc]. rewrite process_rev, app_nil_r.
+  unfold calldataload, gen_calldataload. cbn [assoc]. rewrite process_rev, app_nil_r.
   rewrite (assoc_in _ (d_id d) (d_sizes d)); [reflexivity| |].
   - rewrite map_rev. apply NoDup_rev. rewrite <- (inv_dyn _ _ _ _ _ Hi).
     apply dyns_keys_nodup. exact (inv_nodup _ _ _ _ _ Hi).
@@ -170,7 +170,7 @@ Theorem candidates_path : forall evs s s' all d,
 Proof.
   intros evs s s' all d H Hin.
   assert (Hinv : path_inv s' ([] ++ all)) by (eapply prun_inv; [|exact H]; intros ? []).
-  destruct (Hinv d Hin) as [_ Has]. unfold calldataload. rewrite Has. reflexivity.
+  destruct (Hinv d Hin) as [_ Has]. unfold calldataload, gen_calldataload. rewrite Has. reflexivity.
 Qed.
 
 (* ... and these candidates are the configured ones of the calldata event that created it *)
@@ -355,12 +355,12 @@ Qed.
 
 Theorem calldataload_fixed : forall subst cands k z,
   assoc subst k = Some z -> calldataload subst cands (LVar k) = [(None, PConst z)].
-Proof. intros subst cands k z H. unfold calldataload. rewrite H. reflexivity. Qed.
+Proof. intros subst cands k z H. unfold calldataload, gen_calldataload. rewrite H. reflexivity. Qed.
 
 Theorem calldataload_other : forall subst cands k,
   assoc subst k = None -> assoc cands k = None ->
   calldataload subst cands (LVar k) = [(None, PSame)] /\ calldataload subst cands LOther = [(None, PSame)].
-Proof. intros subst cands k H1 H2. unfold calldataload. rewrite H1, H2. split; reflexivity. Qed.
+Proof. intros subst cands k H1 H2. unfold calldataload, gen_calldataload. rewrite H1, H2. split; reflexivity. Qed.
 
 Theorem parse_reject : forall inputs t s,
   parse_inputs inputs = Some t -> In s (leaves t) ->
